@@ -242,11 +242,23 @@ def run_hyp_part(ctx: Ctx, part: Part, tier: str) -> None:
                 box.setdefault("failing", set()).add(case_hash(case))
                 raise v
 
+        flaky = False
         try:
             test()
         except Violation:
+            pass
+        except hypothesis.errors.Flaky:
+            # the property failed on a case and passed (or failed differently) when
+            # Hypothesis re-executed it: the observed violation stands, it is a
+            # nondeterministic one (e.g. unseeded randomness in the code under test)
+            if "v" not in box:
+                raise
+            flaky = True
+        if "v" in box:
             v = box["v"]
-            ctx.add_failure(part.name, v.bucket, box["case"], v.message)
+            ctx.add_failure(part.name, v.bucket, box["case"], v.message + (
+                " [not reproduced when the same case was re-executed: the behaviour is "
+                "nondeterministic]" if flaky else ""))
             seen.add(v.bucket)
             # shrinking may eat the budget; give the continuation a little more
             ctx.deadline = max(ctx.deadline, time.monotonic() + 20)
